@@ -109,7 +109,7 @@ theorem ctx_stays_cancelled {c : Cfg} {s s' : State} {e : Ev} (hs : step c s e =
   | wake n => obtain ⟨_, _, _, rfl⟩ := step_wake.mp hs; exact hc
   | cbReturn n r =>
     obtain ⟨_, _, hr⟩ := step_cbReturn.mp hs
-    rcases hr with ⟨_, rfl⟩ | ⟨_, rfl⟩ | ⟨_, _, rfl⟩ <;> exact hc
+    rcases hr with ⟨_, rfl⟩ | ⟨_, rfl⟩ | ⟨_, _, rfl⟩ | ⟨_, _, rfl⟩ <;> exact hc
   | complete n =>
     obtain ⟨_, hh⟩ := step_complete.mp hs
     rcases hh with ⟨_, rfl⟩ | ⟨_, rfl⟩
